@@ -231,8 +231,13 @@ def concretise(hist, payload=default_payload, skin=None, k0=0):
     if skin.get("bytes"):
         data = b"".join(t.encode("latin-1") + b"\n" for t in out)
     else:
-        data = "".join(t + "\n" for t in out).encode()
+        # (a lone surrogate in a payload stands for a byte that is not valid UTF-8)
+        data = "".join(t + "\n" for t in out).encode("utf-8", "surrogateescape")
     return data, out
+
+
+def concretise_texts(hist, payload=default_payload, skin=None):
+    return concretise(hist, payload=payload, skin=skin)[1]
 
 
 def line_events(hist, texts, intern, tabs=8, git_prefix=None):
